@@ -40,6 +40,7 @@ Inductive case :=
 
 Definition hcall_eqb (a b : hcall) : bool :=
   match a, b with
+  | CElement x, CElement y => Bool.eqb x y
   | CFund n, CFund m => Nat.eqb n m
   | CFundFail, CFundFail => true
   | CUpdate x, CUpdate y => Bool.eqb x y
